@@ -1359,6 +1359,25 @@ class PartialARBF(DiffARBF):
                 Y = Y[:, self.active_dims]
         return super(PartialARBF, self).__call__(X, Y, eval_gradient, get_sub_kernels)
 
+    def _active_columns(self, X):
+        # same selection and back-compatibility rules as in __call__
+        if not np.iterable(self.scale):
+            self.scale = [self.scale] * (self.order + 1)
+        if (not hasattr(self, "active_dims")) or (self.active_dims is None):
+            return np.arange(X.shape[1])[self.start :]
+        return np.arange(X.shape[1])[self.active_dims]
+
+    def diag(self, X):
+        return super(PartialARBF, self).diag(X[:, self._active_columns(X)])
+
+    def k_and_deriv(self, X, Y=None):
+        dims = self._active_columns(X)
+        YA = None if Y is None else Y[:, dims]
+        k, dka = super(PartialARBF, self).k_and_deriv(X[:, dims], YA)
+        dk = np.zeros(k.shape + (X.shape[1],))
+        dk[:, :, dims] = dka
+        return k, dk
+
 
 class SingleRBF(RBF):
     """
